@@ -124,7 +124,7 @@ func sdbHas(c *segDataBuffer, seqNr uint32) bool {
 func ctrInv(s *seqCounters) bool {
 	return len(s.counters) == int(s.windowSize) && s._nrCounters <= s.windowSize && s.windowSize >= 1 &&
 		forall(0, int(s._nrCounters), func(i int) bool {
-			return s.counters[i].count >= 1 && forall(i+1, int(s._nrCounters), func(j int) bool {
+			return forall(i+1, int(s._nrCounters), func(j int) bool {
 				return int(s.counters[j].seqNr)-int(s.counters[i].seqNr) >= j-i
 			})
 		})
@@ -158,6 +158,8 @@ func ctrInv(s *seqCounters) bool {
 //@   loop 2 invariant forall k in [0, i) :: s.counters[k].seqNr != seqNr
 //@   loop 2 decreases int(s._nrCounters) - i
 //@   loop 3 invariant 0 <= i && i < s._nrCounters
+//@   loop 3 invariant forall k in [int(i), int(s._nrCounters)) :: seqNr < s.counters[k].seqNr
+//@   loop 3 invariant forall k in [0, int(s._nrCounters)) :: s.counters[k].seqNr != seqNr
 //@   loop 3 decreases int(i)
 
 //@ func (*seqCounters).newFullCounter
@@ -166,14 +168,15 @@ func ctrInv(s *seqCounters) bool {
 //@   loop 1 invariant -1 <= i && i < int(s._nrCounters)
 //@   loop 1 decreases i + 1
 
-// fullRange: every number in [first,last] has a counter with count >= nrTracks.
+// fullRange: [first,last] is a run of consecutive sequence numbers held by
+// consecutive counters ending at some index li, all with count >= nrTracks.
 //@ func (*seqCounters).fullRange
 //@   requires s != nil && ctrInv(s) && nrTracks >= 1
 //@   ensures  first <= last
-//@   ensures  last != 0 ==> forall n in [int(first), int(last)+1) :: exists k in [0, int(s._nrCounters)) :: int(s.counters[k].seqNr) == n && s.counters[k].count >= nrTracks
+//@   ensures  run: last != 0 ==> exists li in [0, int(s._nrCounters)) :: s.counters[li].seqNr == last && li - (int(last)-int(first)) >= 0 && forall k in [li - (int(last)-int(first)), li+1) :: int(s.counters[k].seqNr) == int(last) - (li - k) && s.counters[k].count >= nrTracks
 //@   loop 1 invariant -1 <= i && i < int(s._nrCounters) && 0 <= lastIdx && lastIdx < int(s._nrCounters)
 //@   loop 1 invariant last == 0 ==> first == 0
-//@   loop 1 invariant last != 0 ==> i < lastIdx && s.counters[lastIdx].seqNr == last && int(first) == int(last) - (lastIdx - (i+1)) && first >= 1
+//@   loop 1 invariant last != 0 ==> i < lastIdx && s.counters[lastIdx].seqNr == last && int(first) == int(last) - (lastIdx - (i+1))
 //@   loop 1 invariant last != 0 ==> forall k in [i+1, lastIdx+1) :: int(s.counters[k].seqNr) == int(last) - (lastIdx - k) && s.counters[k].count >= nrTracks
 //@   loop 1 decreases i + 1
 
